@@ -96,13 +96,41 @@ def _contains(root, node):
     return False
 
 
-def path_condition(fn, node, inline=True):
-    """Conjunction of the conditions of all enclosing ifs / ?: / loops, with polarity."""
+def _always_leaves(st):
+    """Statement cannot complete normally (ends in continue / break / return / throw on every path), syntactically."""
+    if st is None:
+        return False
+    k = st.get("k")
+    if k in ("ContinueStmt", "BreakStmt", "ReturnStmt"):
+        return True
+    if k in ("ExprWithCleanups", "CXXThrowExpr"):
+        x = strip(st)
+        return x is not None and x.get("k") == "CXXThrowExpr"
+    if k == "CompoundStmt":
+        ch = [c for c in st.get("ch", []) if c.get("k") != "NullStmt"]
+        return bool(ch) and _always_leaves(ch[-1])
+    if k == "IfStmt":
+        return st.get("else") is not None and _always_leaves(st.get("then")) and _always_leaves(st.get("else"))
+    return False
+
+
+def path_condition(fn, node, inline=True, early=False):
+    """Conjunction of the conditions of all enclosing ifs / ?: / loops, with polarity.
+    early=True also adds the negation of every earlier sibling `if (c) { ...; continue/return/break; }` guard."""
     sal = single_assignment_locals(fn) if inline else None
     fs = []
     child = node
     for a in fn.ancestors(node):
         k = a.get("k")
+        if early and k == "CompoundStmt":
+            for st in a.get("ch", []):
+                if st is child or (st.get("id") is not None and st.get("id") == child.get("id")):
+                    break
+                if st.get("k") == "IfStmt":
+                    if _always_leaves(st.get("then")) and not _always_leaves(st.get("else")):
+                        fs.append(("not", formula(st["cond"], sal)))
+                    elif st.get("else") is not None and _always_leaves(st.get("else")) and not _always_leaves(st.get("then")):
+                        fs.append(formula(st["cond"], sal))
         if k == "IfStmt":
             if _contains(a.get("then"), child):
                 fs.append(formula(a["cond"], sal))
